@@ -47,7 +47,7 @@ TOTAL = {
     'core::clone::impls::<impl core::clone::Clone for u16>::clone',
     'core::clone::impls::<impl core::clone::Clone for u8>::clone',
     'core::clone::impls::<impl core::clone::Clone for usize>::clone',
-    'core::cmp::Ord::max', 'core::cmp::Ord::min', 'core::cmp::Ordering::is_eq', 'core::cmp::Ordering::then_with',
+    'core::cmp::Ord::max', 'core::cmp::Ord::min', 'core::cmp::max', 'core::cmp::min', 'core::cmp::Ordering::is_eq', 'core::cmp::Ordering::then_with',
     'core::cmp::PartialEq::ne', '<core::cmp::Ordering as core::cmp::PartialEq>::eq', '<core::cmp::Ordering as core::cmp::PartialEq>::ne',
     'core::cmp::impls::<impl core::cmp::Ord for u16>::cmp',
     'core::cmp::impls::<impl core::cmp::Ord for usize>::cmp',
@@ -189,11 +189,6 @@ AUDITED_ASSERTS = {
         '`self.inner.len() - 1` immediately after `self.inner.push(..)` (checked: push precedes, nothing shrinks it)',
     ('probe::Probe::receive_indirect_ack', 'assert', 'Overflow(Add):self.indirect_ack_count,1'):
         'every increment removes one element from `indirect` (checked: paired with swap_remove), bounded by memory',
-    ('runtime::AccumulatingRuntime::backlog', 'assert', 'Overflow(Add):len(self.to_send),len(self.to_schedule)'):
-        'VecDeque lengths of elements >= 32 and >= 16 bytes: each <= isize::MAX/16, sum cannot overflow',
-    ('runtime::AccumulatingRuntime::backlog', 'assert',
-     'Overflow(Add):AddWithOverflow(len(self.to_send),len(self.to_schedule)).0,len(self.notifications)'):
-        'previous sum <= 2^63/32 + 2^63/16, notifications <= isize::MAX: total < usize::MAX',
     ('Foca::send_message', 'assert', 'Overflow(Add):acc:u16,1'):
         '`num_items += 1` (u16) runs once per element popped from choice_buf, which holds at most `wanted` elements, '
         'and wanted is min(estimate, u16::MAX) (checked: D6 repair)',
@@ -218,7 +213,17 @@ AUDITED_ASSERTS = {
 
 # audited arithmetic asserts whose operand can be spelled in several ways: (owner, compiled pattern over the
 # descriptor, argument).  Used when no exact key of AUDITED_ASSERTS matches.
+def _distinct_queue_lengths(desc):
+    leaves = _re.findall(r'len\(self\.(\w+)\)', desc)
+    rest = _re.sub(r'len\(self\.\w+\)|AddWithOverflow|\.0|[(),]', '', desc.split(':', 1)[1])
+    return not rest and len(leaves) == len(set(leaves)) and set(leaves) <= {'to_send', 'to_schedule', 'notifications'}
+
+
 AUDITED_ASSERT_PATTERNS = [
+    ('runtime::AccumulatingRuntime::backlog', _re.compile(r'^Overflow\(Add\):'),
+     'a sum, in any order, of the lengths of distinct queues among to_send / to_schedule / notifications (elements >= 32, '
+     '>= 16 and >= 1 bytes: lengths <= isize::MAX/32, /16 and isize::MAX, so the total is < usize::MAX)',
+     _distinct_queue_lengths),
     ('member::Members::next',
      _re.compile(r'^Overflow\(Add\):.*skip\(iter\(deref\(self\.inner\)\),self\.cursor\).*,self\.cursor$'),
      'an offset produced by enumerating / searching inner.iter().skip(cursor): offset + cursor < inner.len() <= isize::MAX'),
